@@ -301,7 +301,8 @@ class Case:
             b.unsafe = us
         bv = getattr(self, 'by_value', False)
         body = (trait_def(self.trait_name, self.trait_generics, where=getattr(self, 'trait_where', ''), with_type=wt, unsafe=us, by_value=bv) if self.trait_name else '')
-        body += ''.join(block_text(b, self.trait_name, with_type=wt, by_value=bv) for b in blocks)
+        # the blocks may name the trait through a longer path (`self::K`): the same trait
+        body += ''.join(block_text(b, getattr(self, 'trait_prefix', '') + self.trait_name, with_type=wt, by_value=bv) for b in blocks)
         return body
 
     def bound_of_probe(self, p):
@@ -477,10 +478,15 @@ def gen_targs_case(rng, variant=None):
             for b in blocks:
                 b.bounds.append(('{T1}', "__outlives__", {}, 'where'))
             targs_pool = ["'static, X1", "'static, X0", "'static, X1, Vec<X0>"]
-        else:
+        elif rng.random() < 0.5:
             tg = '<const N: usize, P, Q: Tr0 = X0>'
             blocks = fam('2, {T1}', '{T0}', ['T0', 'T1'], rng.sample(GROUPS, 2), 0)
             targs_pool = ['2, X1', '2, X0, Vec<X0>', '3, X1']
+        else:
+            # a defaulted CONST parameter omitted at the use site (the trait's items mention it)
+            tg = '<P, const N: usize = 3>'
+            blocks = fam('{T1}', '{T0}', ['T0', 'T1'], rng.sample(GROUPS, 2), 0)
+            targs_pool = ['X1', 'X0', 'X1, 2']
         extra_world = 'impl Tr0 for X0 {}\nimpl Tr0 for Vec<X0> {}\n'
     elif variant == 'nested_unsized':
         # a ?Sized trait parameter; a general block `K<U> for T` next to the reflexive `K<T> for T`
@@ -705,7 +711,7 @@ def gen_case(rng, kind, idx=None):
             b.tag = 'b%d' % i
         probes, world = build_world_and_probes(rng, blocks, headers, unsized=True, nprobes=10)
         return Case(kind, 'K', '', blocks, probes, world)
-    elif kind == 'unsized2':
+    elif kind in ('unsized2', 'unsized2x'):
         # a family dispatched on two parameters; some blocks relax Sized on the boxed one,
         # inline or in the where-clause; a sibling may leave that key as a wildcard
         h = pk.choice(['pairbox', 'refpair'])
@@ -716,13 +722,18 @@ def gen_case(rng, kind, idx=None):
             [('GA', 'GA'), ('GB', 'GA')],
             [('GA', None), ('GB', 'GC'), ('GC', 'GA')],
             [('GA', 'GA'), ('GA', 'GB'), ('GB', 'GB'), ('GC', None)],
-        ])
+        ] + ([
+            # neither row covers the other, yet the blocks overlap (rustc rejects the helper impls):
+            # only for the correspondence of the family search (C11), not for acceptance oracles
+            [('GA', None), (None, 'GB')],
+            [('GA', None), (None, 'GB'), ('GB', 'GC')],
+        ] if kind == 'unsized2x' else []))
         blocks = []
         for i, (g0, g1) in enumerate(rows):
             slots = mk_slots(rng, used)
             order = list(slots); rng.shuffle(order)
             order = [x for x in order if x[0] == 'L'] + [x for x in order if x[0] != 'L']
-            bounds = [('{T0}', tr, {'G': g0}, rng.choice(['inline', 'where'])),
+            bounds = [('{T0}', tr, ({'G': g0} if g0 else {}), rng.choice(['inline', 'where'])),
                       ('{T1}', tr, ({'G': g1} if g1 else {}), rng.choice(['inline', 'where']))]
             rng.shuffle(bounds)
             relaxed = {}
